@@ -229,7 +229,8 @@ def gen_C03(rng, tier):
         L.append(l)
     for (t1, t2) in TPAIRS[:8] + [(-5, -3), (-10 ** 9, -1)]:
         for setup, nt in (("inv", 2), ("gear:40000000", 2), ("axle:3", 3), ("diff:EQ", 3), ("diff:SU", 3)):
-            ops = ["ss:0:%d@%s" % (t1, mkstate(rng)), "ss:1:%d@%s" % (t2, mkstate(rng))]
+            st1 = mkstate(rng)
+            ops = ["ss:0:%d@%s" % (t1, st1), "ss:1:%d@%s" % (t2, st1 if rng.random() < 0.35 else mkstate(rng))]
             if nt == 3:
                 ops.append("ss:2:%d@%s" % (min(t1, t2), mkstate(rng)))
             L.append("dv %s -- %s u:0 oa ra" % (setup, " ".join(ops)))
@@ -661,12 +662,27 @@ def gen_C04(rng, tier):
         c = rng.randint(-10 ** 15, 10 ** 15)
         rel.append(("shift", ia, len(L), c))
         L.append("ss pid %s %s %s %s %s" % (sp, kp, ki, kd, " ".join(shift_tok(e, c) for e in evs)))
-        k = rng.randint(-8, 8)
+        k = rng.randint(-8, 8) if rng.random() < 0.8 else rng.randint(-40, -18)   # also far down: errors below f32::EPSILON
         rel.append(("scale", ia, len(L), k))
         L.append("ss pid %s %s %s %s %s" % (f2h(h2f(sp) * 2.0 ** k), kp, ki, kd, " ".join(scale_tok(e, k) for e in evs)))
         # the same controller assembled from the crate's own streams (examples/pid.rs wiring), same history
         rel.append(("composed", ia, len(L), None))
         L.append("ss spid %s %s %s %s %s" % (sp, kp, ki, kd, " ".join(q_tok(e) for e in evs)))
+    # creeping inputs: consecutive samples a few ulps apart (error changes far below f32::EPSILON but not zero), sampled fast and
+    # slowly; and plateaus (exactly repeated values) — the backward difference must still be (e_i - e_{i-1}) / dt
+    for _ in range(n_of(tier, 60, 400)):
+        n = rng.randint(3, 24)
+        bits = int(f2h(rng.choice([-1, 1]) * math.exp(rng.uniform(math.log(1e-3), math.log(2.0)))), 16)
+        t = rng.randint(-10 ** 12, 10 ** 12)
+        evs = []
+        for i in range(n):
+            t += rng.choice([1000, 10 ** 6, log_dt(rng)])
+            bits += rng.choice([0, 1, 1, 2, 3, -1, -2])
+            evs.append("S@%d@%08x" % (t, bits))
+            if rng.random() < 0.06:
+                evs.append(rng.choice(["N", "E1", "EN"]))
+        sp = rng.choice([f2h(0.0), mkf(rng), "%08x" % (bits + 5)])
+        L.append("ss pid %s %s %s %s %s" % (sp, rand_f(rng, -3, 3), rand_f(rng, -3, 3), rng.choice([f2h(1.0), rand_f(rng, -3, 3)]), " ".join(evs)))
     RELATIONS["C04"] = rel
     return L
 
@@ -1197,12 +1213,42 @@ def oracle_C07(lines, impl):
 
 
 # =========================================================================== devices (C08, C09, C13, C16, C20)
+_STATE_POOL = []
+
+
+def dev_state(rng):
+    """state payload for terminals: mostly fresh, but sometimes EXACTLY equal to (or the exact negation of) a payload used a moment
+    ago — "the two readings already agree, nothing to do" shortcuts (skipped average, skipped write) only go wrong there"""
+    r = rng.random()
+    if _STATE_POOL and r < 0.22:
+        return rng.choice(_STATE_POOL[-6:])
+    if _STATE_POOL and r < 0.30:
+        return "/".join("%08x" % (int(h, 16) ^ 0x80000000) for h in rng.choice(_STATE_POOL[-6:]).split("/"))
+    v = mkstate(rng)
+    _STATE_POOL.append(v)
+    if len(_STATE_POOL) > 64:
+        del _STATE_POOL[:32]
+    return v
+
+
 def datum_state(rng, t=None):
-    return "%d@%s" % (rng.randint(-10 ** 6, 10 ** 6) if t is None else t, mkstate(rng))
+    return "%d@%s" % (rng.randint(-10 ** 6, 10 ** 6) if t is None else t, dev_state(rng))
+
+
+_CMD_POOL = []
 
 
 def datum_cmd(rng, t):
-    return "%d@%s%s" % (t, rng.choice("PVA"), mkf(rng))
+    """command datum; sometimes the VALUE of a recent command is reused exactly with a (possibly) different kind — a
+    "skip the write, nothing changed" test that looks at the number only goes wrong there"""
+    if _CMD_POOL and rng.random() < 0.25:
+        v = rng.choice(_CMD_POOL[-4:])
+    else:
+        v = mkf(rng)
+        _CMD_POOL.append(v)
+        if len(_CMD_POOL) > 64:
+            del _CMD_POOL[:32]
+    return "%d@%s%s" % (t, rng.choice("PVA"), v)
 
 
 def rand_ratio(rng):
